@@ -7,7 +7,7 @@
    table is an error of the case (the check then fails), never silently "unmapped". *)
 From Coq Require Export String Uint63.
 From Coq Require Import Ascii ZArith.
-From FB Require Export C07.Model Base.Run.
+From FB Require Export C07.Model C07.Spec C07.Tree Base.Run.
 
 (* Strings of a case are written as Coq string literals (UTF-8) — Coq reads those far faster than
    lists of numerals — and decoded to code points here. *)
@@ -57,15 +57,28 @@ Definition remapper_of (cs : ctable) (fs ms : mtable) : remapper :=
 Inductive obs :=
 | OName (k : N) (a b : str)          (* 0 ObjClassName 1 ClassName 2 field 3 method 4 return descriptor *)
 | ORef (k : N) (a b : ref3)          (* 0 FieldRef 1 MethodRef *)
-| ODecl (k : N) (n d n' d' : str)    (* 0 declared field 1 declared method *)
+| ODecl (k : N) (n d n' d' : str)    (* 0 declared field 1 declared method 2 record component *)
 | OEncl (c : str) (m : option member) (c' : str) (m' : option member)
 | OEnum (t c t' c' : str).
+
+(* the `{:?}` rendering of a duke tree, as parsed by harness/src/classfile/dbg.rs: the harness knows
+   nothing about the class tree — the schema-directed reading into [val] happens here ([of_dbg]) *)
+Inductive dbg :=
+| DAtom (a : str)                               (* number, bool, unit variant, None *)
+| DStrL (s : str)                               (* string literal *)
+| DNode (n : str) (fs : list (str * dbg))       (* Name { f: v, .. } / Name(v, ..) (fields "0", "1", ..) *)
+| DFlags (n : str) (ws : list str)              (* Name { word word } (duke's access-flag structs) *)
+| DList (l : list dbg)
+| DTuple (l : list dbg).
 
 Inductive case :=
 | CNames (cs : ctable) (names : list str) (out : res (list str))
     (* entry names of the input jar, in order -> entry names of the remapped jar, in order *)
 | CRefs (cs : ctable) (fs ms : mtable) (this : str) (l : list obs)
     (* one class (original name [this]): every reference position *)
+| CTree (cs : ctable) (fs ms : mtable) (tin : dbg) (tout : res dbg)
+    (* one whole class tree as handed to remap_class, and what remap_class returned; the tables are
+       every question the call put to the remapper, with its answer *)
 | CBad.
     (* a case text that does not decode *)
 
@@ -74,7 +87,9 @@ Inductive case :=
    literal in no time, a term of the same size node by node).  Format, over the UTF-8 bytes of the
    literal (numbers in decimal):
 
-     case   ::= pool ( 'N' ctable strs ( 'E' | 'O' strs ) | 'R' ctable mtable mtable str obss )
+     case   ::= pool ( 'N' ctable strs ( 'E' | 'O' strs ) | 'R' ctable mtable mtable str obss
+                     | 'T' ctable mtable mtable dbg ( 'E' | 'O' dbg ) )
+     dbg    ::= 'a' str | 'q' str | 'k' str count ';' ( str dbg )* | 'f' str strs | 'l' count ';' dbg* | 't' count ';' dbg*
      pool   ::= count ';' strlit*                      strings referred to by '#' index ';'
      strlit ::= 's' bytecount ':' utf8-bytes | 'c' count ':' ( codepoint ',' )*
      str    ::= strlit | '#' index ';'
@@ -148,6 +163,22 @@ Definition p_obs (pool : list str) : P obs := fun l =>
   | 117 :: r => (pdo t <- s; pdo c <- s; pdo t' <- s; pdo c' <- s; p_ret (OEnum t c t' c')) r
   | _ => None
   end.
+Fixpoint p_dbg (fuel : nat) (pool : list str) : P dbg :=
+  match fuel with
+  | O => fun _ => None
+  | S k => fun l =>
+      match l with
+      | 97 :: r => (pdo a <- p_str pool; p_ret (DAtom a)) r
+      | 113 :: r => (pdo a <- p_str pool; p_ret (DStrL a)) r
+      | 107 :: r => (pdo n <- p_str pool; pdo fs <- p_counted (p_pair (p_str pool) (p_dbg k pool)); p_ret (DNode n fs)) r
+      | 102 :: r => (pdo n <- p_str pool; pdo ws <- p_counted (p_str pool); p_ret (DFlags n ws)) r
+      | 108 :: r => (pdo x <- p_counted (p_dbg k pool); p_ret (DList x)) r
+      | 116 :: r => (pdo x <- p_counted (p_dbg k pool); p_ret (DTuple x)) r
+      | _ => None
+      end
+  end.
+Definition dbg_fuel : nat := 400.   (* nesting depth *)
+
 Definition p_case : P case :=
   pdo pool <- p_counted p_strlit;
   fun l =>
@@ -162,6 +193,13 @@ Definition p_case : P case :=
     | 82 :: r =>
         (pdo cs <- p_ctable pool; pdo fs <- p_mtable pool; pdo ms <- p_mtable pool; pdo this <- p_str pool;
          pdo l <- p_counted (p_obs pool); p_ret (CRefs cs fs ms this l)) r
+    | 84 :: r =>
+        (pdo cs <- p_ctable pool; pdo fs <- p_mtable pool; pdo ms <- p_mtable pool; pdo tin <- p_dbg dbg_fuel pool;
+         fun l' => match l' with
+                   | 69 :: r' => Some (CTree cs fs ms tin Err, r')
+                   | 79 :: r' => (pdo tout <- p_dbg dbg_fuel pool; p_ret (CTree cs fs ms tin (Ok tout))) r'
+                   | _ => None
+                   end) r
     | _ => None
     end.
 Definition D (s : string) : case :=
@@ -200,9 +238,135 @@ Definition check_obs (R : remapper) (this : str) (o : obs) : bool :=
   | OName k a b => res_eqb refval_eqb (remap_at R (name_meth k) this (VName a)) (Ok (VName b))
   | ORef k a b => res_eqb refval_eqb (remap_at R (match k with 0 => MFieldRef | _ => MMethodRef end) this (VRef a)) (Ok (VRef b))
   | ODecl k n d n' d' =>
-      res_eqb refval_eqb (remap_at R (MDeclName (match k with 0 => DField | _ => DMethod end)) this (VDecl n d)) (Ok (VDecl n' d'))
+      res_eqb refval_eqb (remap_at R (MDeclName (match k with 0 => DField | 1 => DMethod | _ => DRecord end)) this (VDecl n d)) (Ok (VDecl n' d'))
   | OEncl c m c' m' => res_eqb refval_eqb (remap_at R MEnclMethod this (VEncl c m)) (Ok (VEncl c' m'))
   | OEnum t c t' c' => res_eqb refval_eqb (remap_at R MEnumConst this (VEnumC t c)) (Ok (VEnumC t' c'))
+  end.
+
+(* ------------------------------------------------------------------ *)
+(* reading a `{:?}` tree as a value of a type of the schema *)
+
+Definition sname (s : string) : str := bytes_of s.
+Definition is_bool (t : rty) : bool := match t with TPrim p => String.eqb p "bool" | _ => false end.
+Definition a_true : str := sname "true".
+Definition a_false : str := sname "false".
+Definition a_none : str := sname "None".
+Definition a_some : str := sname "Some".
+Definition a_zero : str := sname "0".
+
+(* a value of the type parameter of TypeAnnotation<T>: never looked into, any injective reading will do *)
+Fixpoint raw_val (d : dbg) : val :=
+  match d with
+  | DAtom a => VOpaque a
+  | DStrL s => VStr s
+  | DNode n fs => VPair (VOpaque n) (VList (map (fun p => VPair (VOpaque (fst p)) (raw_val (snd p))) fs))
+  | DFlags n ws => VPair (VOpaque n) (VList (map VOpaque ws))
+  | DList l => VList (map raw_val l)
+  | DTuple l => VPair (VOpaque []) (VList (map raw_val l))
+  end.
+
+Definition find_field (fts : list (string * rty)) (f : str) : option (string * rty) :=
+  find (fun p => str_eqb (sname (fst p)) f) fts.
+
+(* duke's flag structs print the set flags as words: field is_<word> *)
+Definition flags_val (n : string) (fts : list (string * rty)) (ws : list str) : res val :=
+  if forallb (fun p => is_bool (snd p)) fts then
+    let fs := map (fun p => (fst p, VOpaque (if existsb (fun w => str_eqb (sname (fst p)) (sname "is_" ++ w)) ws then a_true else a_false))) fts in
+    if Nat.eqb (List.length (filter (fun p => match snd p with VOpaque a => str_eqb a a_true | _ => false end) fs)) (List.length ws)
+    then Ok (VNode n "" fs) else Err
+  else Err.
+
+Fixpoint of_dbg (defs : list tdef) (T : rty) (d : dbg) {struct d} : res val :=
+  match T with
+  | TPrim _ => match d with DAtom a => Ok (VOpaque a) | DStrL s => Ok (VStr s) | _ => Err end
+  | TParam => Ok (raw_val d)
+  | TOpt a =>
+      match d with
+      | DAtom x => if str_eqb x a_none then Ok VNone else Err
+      | DNode n [(_, x)] => if str_eqb n a_some then match of_dbg defs a x with Ok y => Ok (VSome y) | Err => Err end else Err
+      | _ => Err
+      end
+  | TVec a => match d with DList l => match mapM (of_dbg defs a) l with Ok l' => Ok (VList l') | Err => Err end | _ => Err end
+  | TPair a b =>
+      match d with
+      | DTuple [x; y] => match of_dbg defs a x, of_dbg defs b y with Ok x', Ok y' => Ok (VPair x' y') | _, _ => Err end
+      | _ => Err
+      end
+  | TName n | TApp n _ =>
+      match lookup_def defs n with
+      | Some (DStr _) =>
+          match d with
+          | DNode n' [(_, DStrL s)] => if str_eqb n' (sname n) then Ok (VStr s) else Err
+          | _ => Err
+          end
+      | Some (DStruct _ fs0) =>
+          let fts := map (fun f => (fst (fst f), snd (fst f))) fs0 in
+          match d with
+          | DFlags n' ws => if str_eqb n' (sname n) then flags_val n fts ws else Err
+          | DNode n' fs =>
+              if str_eqb n' (sname n) then
+                match fs, fts with
+                | [], _ :: _ => flags_val n fts []
+                | _, _ =>
+                    match mapM (fun p => match find_field fts (fst p) with
+                                         | Some ft => match of_dbg defs (snd ft) (snd p) with Ok y => Ok (fst ft, y) | Err => Err end
+                                         | None => Err
+                                         end) fs with
+                    | Ok fs' => Ok (VNode n "" fs')
+                    | Err => Err
+                    end
+                end
+              else Err
+          | _ => Err
+          end
+      | Some (DEnum _ vs) =>
+          match d with
+          | DAtom c =>
+              match find (fun v => str_eqb (sname (fst v)) c) vs with
+              | Some v => match snd v with [] => Ok (VNode n (fst v) []) | _ => Err end
+              | None => Err
+              end
+          | DNode c fs =>
+              match find (fun v => str_eqb (sname (fst v)) c) vs with
+              | Some v =>
+                  match mapM (fun p => match find_field (snd v) (fst p) with
+                                       | Some ft => match of_dbg defs (snd ft) (snd p) with Ok y => Ok (fst ft, y) | Err => Err end
+                                       | None => Err
+                                       end) fs with
+                  | Ok fs' => Ok (VNode n (fst v) fs')
+                  | Err => Err
+                  end
+              | None => Err
+              end
+          | _ => Err
+          end
+      | None => Err
+      end
+  end.
+
+Definition RTr : list string := Eval vm_compute in ref_types type_defs.
+Definition class_t : rty := TName "ClassFile".
+
+(* the tree handed to remap_class is a well-typed class; the interpreter of the regenerated table
+   computes the tree remap_class returned; and when the class has nothing at the positions of the
+   known findings, so does the specification *)
+Definition check_tree (R : remapper) (tin : dbg) (tout : res dbg) : bool :=
+  match of_dbg type_defs class_t tin with
+  | Ok vi =>
+      has_ty type_defs class_t vi &&
+      match tout with
+      | Ok dout =>
+          match of_dbg type_defs class_t dout with
+          | Ok vo =>
+              res_eqb val_eqb (remap_val gen_table R None class_t vi) (Ok vo) &&
+              (if clean gen_table known_row vi
+               then res_eqb val_eqb (spec_val type_defs RTr R None class_t vi) (Ok vo) && same_shape vi vo
+               else true)
+          | Err => false
+          end
+      | Err => match remap_val gen_table R None class_t vi with Err => true | Ok _ => false end
+      end
+  | Err => false
   end.
 
 Definition check (c : case) : bool :=
@@ -215,5 +379,6 @@ Definition check (c : case) : bool :=
                | Err => Err
                end) out
   | CRefs cs fs ms this l => forallb (check_obs (remapper_of cs fs ms) this) l
+  | CTree cs fs ms tin tout => check_tree (remapper_of cs fs ms) tin tout
   | CBad => false
   end.
